@@ -172,6 +172,7 @@ class Expect:
         self.after_close = 0  # complete messages whose frames follow the close frame (discarded, RFC 6455 §1.4)
         self.seq_error = None
         self.first_bad = None # (index into msgs, pongs owed before it) of the first non-UTF-8 text message
+        self.pings_at_msg = []  # per entry of msgs: number of pings received before that message was complete
 
 
 def model(frames):
@@ -211,6 +212,7 @@ def model(frames):
 
 def _complete(e, cur):
     data = b"".join(cur[1])
+    e.pings_at_msg.append(len(e.pongs))
     if cur[0] == "t" and not is_utf8(data):
         e.bad_text += 1
         if e.first_bad is None:
@@ -378,6 +380,9 @@ class Stream:
     def expect_wire(self):
         if self.kind in ("h", "m"):
             return 2 + 13 + (4 if self.side == "c" else 0)     # at least the sentinel's pong (or a close frame)
+        if self.kind == "a":
+            extra = 4 if self.side == "c" else 0
+            return sum(2 + len(p) + extra for p in self.expect.pongs) + 2 + len(APP_CLOSE_PAYLOAD) + extra
         return wire_of_endpoint(self.expect, masked=(self.side == "c"))
 
     def sig(self):
@@ -530,6 +535,60 @@ def gen_valid(rng, sid, side, big_ok=True, want_close=None, nmsg=None, utf8_bad=
     feats.add("mask-" + mask_mode)
     st.features = tuple(sorted(feats))
     return st.build()
+
+
+APP_CLOSE_TRIGGER = b"vf-app-close"     # the harness' text handler answers this message with sendClose(1000, "bye")
+APP_CLOSE_PAYLOAD = close_payload(1000, b"bye")
+
+
+def gen_appclose(rng, sid, side):
+    """kind 'a': the ENDPOINT starts the close handshake (its application calls sendClose from the text
+    handler when the trigger message arrives); the peer keeps sending - pings, pongs, messages, also in
+    the same write as the trigger - and only then answers with its own Close frame. RFC 6455 5.5.2:
+    every ping received before the peer's Close frame is answered with a pong of equal payload, also
+    after the endpoint's own Close (which only forbids further DATA frames, 5.5.1)."""
+    st = Stream(sid, side, "a")
+    pre = gen_valid(rng, sid, side, big_ok=False, want_close=False, nmsg=rng.choice([0, 1, 1, 2]))
+    post = gen_valid(rng, sid, side, big_ok=False, want_close=False, nmsg=rng.choice([0, 0, 1, 2]))
+    masked = side == "s" or rng.random() < 0.3
+    mk = (lambda: rand_mask(rng)) if masked else (lambda: None)
+    frames = pre.frames[:-1]                       # without the sentinel ping
+    st.pings_before_trigger = sum(1 for f in frames if f.opcode == OP_PING)
+    # the trigger, whole or fragmented (with a ping between the fragments now and then)
+    if rng.random() < 0.3:
+        k = rng.randrange(1, len(APP_CLOSE_TRIGGER))
+        frames.append(Frame(OP_TEXT, APP_CLOSE_TRIGGER[:k], False, mk()))
+        if rng.random() < 0.5:
+            frames.append(Frame(OP_PING, b"in-trigger", True, mk()))
+            st.pings_before_trigger += 1
+        frames.append(Frame(OP_CONT, APP_CLOSE_TRIGGER[k:], True, mk()))
+    else:
+        frames.append(Frame(OP_TEXT, APP_CLOSE_TRIGGER, True, mk()))
+    # behind the endpoint's Close: at least one ping, then whatever the second stream holds
+    tail = [Frame(OP_PING, rand_bytes(rng, rng.choice([0, 1, 5, 16, 125])), True, mk())]
+    if rng.random() < 0.5:
+        tail.append(Frame(OP_PONG, rand_bytes(rng, rng.choice([0, 3])), True, mk()))
+    tail += post.frames[:-1]
+    if rng.random() < 0.6:
+        tail.append(Frame(OP_PING, b"last-before-peer-close-" + sid.encode()[-8:], True, mk()))
+    frames += tail
+    r = rng.random()
+    cp = b"" if r < 0.2 else close_payload(1000) if r < 0.5 else close_payload(rng.choice([1000, 1001, 3000]), utf8_text(rng, rng.choice([0, 4, 20])))
+    frames.append(Frame(OP_CLOSE, cp, True, mk()))
+    st.frames = frames
+    st.note = "application calls sendClose(1000,'bye') on the trigger message; %d ping(s) before it, %d between the endpoint's Close and the peer's Close" % (
+        st.pings_before_trigger, sum(1 for f in frames if f.opcode == OP_PING) - st.pings_before_trigger)
+    feats = set(f for f in pre.features + post.features if isinstance(f, str) and (f.startswith("frag") or f.startswith("ping") or f.startswith("pong")))
+    feats.add("app-close")
+    feats.add("pings-after-own-close:%d" % min(3, sum(1 for f in tail if f.opcode == OP_PING)))
+    if any(f.opcode in (OP_TEXT, OP_BIN) for f in tail):
+        feats.add("data-received-after-own-close")
+    st.features = tuple(sorted(feats))
+    return st.build()
+
+
+def appclose_corpus(rng, side, n, prefix):
+    return [gen_appclose(rng, "%s%05d" % (prefix, i), side) for i in range(n)]
 
 
 def interesting_cuts(st, rng, limit):
